@@ -159,6 +159,9 @@ def units(tier):
         for cs in EDIT_CHARSETS:
             for seq in EDIT_SEQUENCES:
                 us.append(('ED', conv, cs, seq))
+    for conv in range(4):
+        for j in 'rl':
+            us.append(('RJ', conv, j))
     us.append(('F', FIX_ALPHA, ''))
     if tier == 'thorough':
         for c in FIX_ALPHA_BIG:
@@ -1249,6 +1252,284 @@ def run_ED(unit, tier, rec):
         rec.notes.append('ED unit %r stopped exploring further sequences after recording violations' % (unit,))
 
 
+# ---------------------------------------------------------------------------------------------------------
+# RJ: name-generating operations on a geometry whose justification is not the one it was first built / first asked with.
+# Histories (all steps on ONE object):
+#   rename-list / rename-one-by-one:  rectangular(justify=j); first operation; ALL columns renamed to the other
+#       justification with rename_column (one call with lists / one call per column); second operation;
+#   rename-there-and-back (thorough): the same, then all columns renamed back and the second operation once more;
+#   stepwise-build:  the steps of rectangular() done by hand on an empty mulgrid (nodes, columns, connections, then
+#       add_layers and the index set-up), optionally reading the public properties right_justified_names /
+#       uppercase_names at every stage before the layers exist; then the second operation.
+# After every operation: column (node, layer) names distinct and of the convention's length, by-name dictionaries
+# complete, block names distinct / 5 long / invertible, one write + mulgrid(filename) cycle loses no column, node or
+# layer (names that differ only in padding collapse there), plan area kept.  Differential clause (order independence):
+# when the column names before the last operation equal those of a geometry that reached them directly
+# (rectangular(justify=final) and the same operations, never re-justified), the names after it must be equal too.
+# The library has no rename_node: with nodes 'kept' only the operations that make no node are applied after the
+# renaming; with nodes 'rejustified' the node names are re-justified through node.name / geo.node (the only way there
+# is) and the node-making operations refine / triangulate_column are applied as well.
+
+RJ_FIRST = ('none', 'query', 'split', 'subdivide', 'refine_layers', 'refine', 'triangulate')
+RJ_SECOND = ('split', 'subdivide', 'refine_layers', 'refine', 'triangulate')
+RJ_NODE_OPS = ('refine', 'triangulate')
+RJ_CHARSETS = {'quick': ('lower',), 'thorough': ('lower', 'upper', 'custom27')}
+RJ_ATMOS = {'quick': (0, 2), 'thorough': (0, 1, 2)}
+RJ_GRIDS = {'quick': ((3, 3, 2),), 'thorough': ((2, 2, 1), (3, 3, 2), (4, 3, 3))}
+RJ_ROUTES = {'quick': ('rename-list', 'rename-one-by-one', 'stepwise-build'),
+             'thorough': ('rename-list', 'rename-one-by-one', 'rename-there-and-back', 'stepwise-build')}
+
+
+def rj_apply(geo, op, chars):
+    """One operation of the library on the first quadrilateral column (last layer)."""
+    if op == 'none':
+        return None
+    if op == 'query':
+        return (geo.right_justified_names, geo.uppercase_names)
+    if op == 'refine_layers':
+        return geo.refine_layers([geo.layerlist[-1]], 2, chars, True)
+    col = [c for c in geo.columnlist if c.num_nodes == 4][0]
+    if op == 'split':
+        return geo.split_column(col.name, col.node[0].name, chars)
+    if op == 'refine':
+        return geo.refine([col], chars=chars, spaces=True)
+    if op == 'subdivide':
+        res = geo.subdivide_column(col.name, 0, [(0, 1, 2), (2, 3, 0)], chars, True)
+    else:
+        res = geo.triangulate_column(col.name, chars, True)
+    # what decompose_columns() does after its subdivide_column calls
+    for c in geo.missing_connections:
+        geo.add_connection(c)
+    geo.setup_block_name_index()
+    geo.setup_block_connection_name_index()
+    return res
+
+
+def rj_rejustify(geo, to, one_by_one, nodes):
+    """All columns renamed to the justification 'to' with rename_column; -> its results."""
+    CL = geo.colname_length
+    jf = justfn(to)
+    old = [c.name for c in geo.columnlist]
+    new = [jf(x.strip(' '), CL) for x in old]
+    if one_by_one:
+        res = [geo.rename_column(o, n_) for o, n_ in zip(old, new) if o != n_]
+    else:
+        res = [geo.rename_column(old, new)]
+    if nodes == 'rejustified':
+        for nd in geo.nodelist:
+            nd.name = jf(nd.name.strip(' '), CL)
+        geo.node = dict((nd.name, nd) for nd in geo.nodelist)
+    return res, new
+
+
+def rj_stepwise(m, conv, atm, j, chars, grid, query):
+    """rectangular()'s own steps done by hand on an empty geometry."""
+    import numpy as np
+    nx, ny, nz = grid
+    geo = m.mulgrid(convention=conv, atmos_type=atm)
+    jf = justfn(j)
+    if query:
+        rj_apply(geo, 'query', chars)
+    num = 1
+    for iy in range(ny + 1):
+        for ix in range(nx + 1):
+            geo.add_node(m.node(geo.node_name_from_number(num, jf, chars, True), np.array([10.0 * ix, 10.0 * iy])))
+            num += 1
+    if query:
+        rj_apply(geo, 'query', chars)
+    num = 1
+    nxv = nx + 1
+    for iy in range(ny):
+        for ix in range(nx):
+            verts = [iy * nxv + ix + 1, (iy + 1) * nxv + ix + 1, (iy + 1) * nxv + ix + 2, iy * nxv + ix + 2]
+            nodes = [geo.node[geo.node_name_from_number(v, jf, chars, True)] for v in verts]
+            geo.add_column(m.column(geo.column_name_from_number(num, jf, chars, True), nodes))
+            num += 1
+    for c in geo.missing_connections:
+        geo.add_connection(c)
+    if query:
+        rj_apply(geo, 'query', chars)
+    geo.add_layers([5.0] * nz, 0.0, j, chars, True)
+    geo.set_default_surface()
+    geo.identify_neighbours()
+    geo.setup_block_name_index()
+    geo.setup_block_connection_name_index()
+    return geo
+
+
+def rj_names(geo):
+    # as sorted lists: which column gets which name is not asserted (refine() walks sets, the assignment varies)
+    return (sorted(c.name for c in geo.columnlist), sorted(l.name.strip(' ') for l in geo.layerlist))
+
+
+def rj_direct(m, conv, atm, final_j, chars, grid, ops):
+    """The same operations on a geometry built with the final justification and never re-justified.
+    -> (names before the last operation, names after it) or None when the library refuses."""
+    nx, ny, nz = grid
+    try:
+        with quiet():
+            with core.timelimit(CALL_LIMIT * 6):
+                geo = m.mulgrid().rectangular([10.0] * nx, [10.0] * ny, [5.0] * nz, convention=conv, atmos_type=atm,
+                                              justify=final_j, chars=chars, spaces=True)
+                for op in ops[:-1]:
+                    rj_apply(geo, op, chars)
+                pre = rj_names(geo)
+                rj_apply(geo, ops[-1], chars)
+                return pre, rj_names(geo)
+    except core.CaseTimeout:
+        raise
+    except Exception:
+        return None
+
+
+def rj_sequence(conv, atm, j, cs, grid, route, first, second, nodes, cache=None):
+    """-> (violations [(sig, what)], operations applied, 'compared' / 'not-comparable' / 'stopped')"""
+    m = lib()
+    chars = N.NAME_CHARSETS[cs]
+    nx, ny, nz = grid
+    CL, LL = N.COLNAME_LENGTH[conv], N.LAYERNAME_LENGTH[conv]
+    oj = 'l' if j == 'r' else 'r'
+    viol = []
+    desc = '%s: %dx%dx%d, convention %d, atmos_type %d, justify %s, chars %s, first operation %s, nodes %s' % (
+        route, nx, ny, nz, conv, atm, j, cs, first, nodes)
+
+    def add(op, clause, what):
+        viol.append(('C17|%s|%s|conv=%d|rejustified-history|after=%s' % (op, clause, conv, route), '%s; %s: %s' % (desc, op, what)))
+
+    def guarded(op, fn):
+        try:
+            with quiet():
+                with core.timelimit(ED_CALL_LIMIT * 4):
+                    return True, fn()
+        except core.CaseTimeout:
+            add(op, 'does-not-terminate', 'no result within %d s' % (ED_CALL_LIMIT * 4))
+        except m.NamingConventionError as e:
+            add(op, 'premature-naming-error', 'raised %r with %s columns named (26 or 27 letters: 18278+ names)'
+                % (e, len(geo.columnlist) if geo is not None else 'no'))
+        except Exception as e:
+            add(op, 'raises-%s' % type(e).__name__, 'raised %r' % (e,))
+        return False, None
+
+    def after(op, area0, res):
+        post = []
+        if op == 'split' and res is not True:
+            post.append(('edit-refused', 'returned %r for a quadrilateral column and one of its nodes' % (res,)))
+        post += edit_postconditions(geo, CL, area0, None, None)
+        post += [(c, w) for c, w in layer_clauses(geo, len(geo.layerlist) - 1, LL, 10 ** 9)]
+        if not post:
+            post += block_clauses(m, geo, conv, atm, len(geo.layerlist) - 1, True)
+        if not post:
+            post += edit_file_cycle(m, geo)
+        for c, w in post:
+            add(op, c, w)
+        return not post
+
+    def operate(op):
+        area0 = sum(c.area for c in geo.columnlist)
+        ok, res = guarded(op, lambda: rj_apply(geo, op, chars))
+        if not ok:
+            return False
+        return True if op in ('none', 'query') else after(op, area0, res)
+
+    def rename(to, tag):
+        old = [c.name for c in geo.columnlist]
+        ok, res = guarded('rename_column', lambda: rj_rejustify(geo, to, route == 'rename-one-by-one', nodes))
+        if not ok:
+            return False
+        results, new = res
+        now = [c.name for c in geo.columnlist]
+        if any(r is not True for r in results):
+            add('rename_column', 'edit-refused', 'returned %r when renaming all columns to justify %s' % (results[:3], to))
+            return False
+        if now != new or sorted(geo.column) != sorted(new):
+            add('rename_column', 'names-after-rename', 'names are %r, expected %r' % (now[:4], new[:4]))
+            return False
+        return True
+
+    geo = None
+    steps = 0
+    if route == 'stepwise-build':
+        ok, geo = guarded('stepwise-build', lambda: rj_stepwise(m, conv, atm, j, chars, grid, first == 'query'))
+        if not ok:
+            return viol, steps, 'stopped'
+        final_j, ops = j, [second]
+    else:
+        ok, geo = guarded('rectangular', lambda: m.mulgrid().rectangular(
+            [10.0] * nx, [10.0] * ny, [5.0] * nz, convention=conv, atmos_type=atm, justify=j, chars=chars, spaces=True))
+        if not ok:
+            return viol, steps, 'stopped'
+        steps += first != 'none'
+        if not operate(first) or not rename(oj, 'there'):
+            return viol, steps, 'stopped'
+        final_j, ops = oj, [first, second]
+        if route == 'rename-there-and-back':
+            steps += 1
+            if not operate(second) or not rename(j, 'back'):
+                return viol, steps, 'stopped'
+            final_j, ops = j, [first, second, second]
+    pre = rj_names(geo)
+    steps += 1
+    if not operate(second):
+        return viol, steps, 'stopped'
+    post = rj_names(geo)
+    ops = [o for o in ops if o not in ('none', 'query')]
+    if 'refine' in ops:
+        # refine() walks Python sets while it frees and takes names: WHICH names end up in use varies from run to run
+        # on one and the same input, so its result is judged by the clauses above only
+        return viol, steps, 'not-comparable'
+    key = (conv, atm, final_j, cs, grid, tuple(ops))
+    if cache is None or key not in cache:
+        direct = rj_direct(m, conv, atm, final_j, chars, grid, ops)
+        if cache is not None:
+            cache[key] = direct
+    else:
+        direct = cache[key]
+    if direct is None or direct[0] != pre:
+        return viol, steps, 'not-comparable'
+    if direct[1] != post:
+        diff = (sorted(set(post[0] + post[1]) - set(direct[1][0] + direct[1][1]))[:3],
+                sorted(set(direct[1][0] + direct[1][1]) - set(post[0] + post[1]))[:3])
+        add(second, 'differs-from-direct-route', 'the names before the operation are those of a geometry built with justify %s '
+            'and never re-justified, the names after it differ: %r (%d / %d columns)' % (final_j, diff, len(post[0]), len(direct[1][0])))
+    return viol, steps, 'compared'
+
+
+def rj_cases(tier):
+    """(atm, cs, grid, route, first, second, nodes) of one (convention, justify) unit."""
+    out = []
+    for atm in RJ_ATMOS[tier]:
+        for cs in RJ_CHARSETS[tier]:
+            for grid in RJ_GRIDS[tier]:
+                for route in RJ_ROUTES[tier]:
+                    for second in RJ_SECOND:
+                        if route == 'stepwise-build':
+                            out += [(atm, cs, grid, route, first, second, 'kept') for first in ('none', 'query')]
+                            continue
+                        for first in RJ_FIRST:
+                            for nodes in ('kept', 'rejustified'):
+                                if nodes == 'kept' and second in RJ_NODE_OPS:
+                                    continue        # no rename_node in the library: see the section comment
+                                out.append((atm, cs, grid, route, first, second, nodes))
+    return out
+
+
+def run_RJ(unit, tier, rec):
+    _, conv, j = unit
+    cache = {}
+    for atm, cs, grid, route, first, second, nodes in rj_cases(tier):
+        with core.timelimit(300):
+            viol, steps, oc = rj_sequence(conv, atm, j, cs, grid, route, first, second, nodes, cache)
+        rec.case(('RJ', conv, j, atm, cs, grid, route, first, second, nodes), nontrivial=steps > 0,
+                 outcome='rejustified-history:' + oc)
+        rec.count('rejustified_history_operations', steps)
+        rec.count('rejustified_histories', 1)
+        if oc == 'compared':
+            rec.count('rejustified_histories_compared_with_direct_route', 1)
+        for sig, what in viol:
+            rec.violation(sig, what, {'kind': 'rejustify', 'conv': conv, 'justify': j, 'atmos': atm, 'chars': cs,
+                                      'grid': list(grid), 'route': route, 'first': first, 'second': second, 'nodes': nodes})
+
+
 def run_C(unit, tier, rec):
     """The constructors other than rectangular(): same clauses, same options; each also called on an object whose own
     convention differs from the one asked for (the result must not depend on it)."""
@@ -1408,6 +1689,8 @@ def _run_unit(unit, tier, rec):
         run_ED(unit, tier, rec)
     elif k == 'C':
         run_C(unit, tier, rec)
+    elif k == 'RJ':
+        run_RJ(unit, tier, rec)
     elif k == 'F':
         run_F(unit, tier, rec)
     else:
@@ -1457,6 +1740,9 @@ def replay(case):
         viol, steps, reached = edit_sequence(case['conv'], case['chars'], case['seq'], case['spaces'], case['atmos'],
                                              tuple(case['grid']), case.get('prime', 'none'), case.get('justify', 'r'))
         return [(s, w) for s, w, st in viol]
+    if k == 'rejustify':
+        return rj_sequence(case['conv'], case['atmos'], case['justify'], case['chars'], tuple(case['grid']), case['route'],
+                           case['first'], case['second'], case['nodes'])[0]
     if k == 'int_to_chars':
         viol, n = check_int_to_chars(case['justify'], case['chars'], case['spaces'], case['length'], nmax=case['n'])
         return [(s, w) for s, w, num in viol if num == case['n']]
